@@ -429,7 +429,7 @@ def worker(shards):
                 for pi, (tag, pub) in enumerate(pubkey_variants(cv, kd["pub"])):
                     _tally(acc, cv, ph, ctx, "pubkey: " + tag.split("=")[0],
                            *ed_verify_case(cv, pub, ph, ctx, msg, sig, "genuine signature, public key re-encoded: " + tag, acc,
-                                           size=50000000 + vi * 100 + pi))
+                                           size=vi * 100 + pi))
                     n += 1
             last = {"part": "eddsa-genuine-candidates", "curve": cv, "variant": vname(ph, ctx), "message": mn,
                     "bit_flip_slice": list(flips) if flips else None, "candidates": n}
@@ -456,7 +456,7 @@ def worker(shards):
                 for si, (stag, S) in enumerate(s_values(cv)):
                     sig = r[1] + S.to_bytes(nb, "little")
                     tag = "A=%s R=%s S=%s" % (a[0], r[0], stag)
-                    v = ed_verify_case(cv, a[1], ph, ctx, msg, sig, tag, acc, full=True, size=vi * 1000000 + idx * 10 + si)
+                    v = ed_verify_case(cv, a[1], ph, ctx, msg, sig, tag, acc, full=True, size=1000 + vi * 1000000 + idx * 10 + si)
                     acc.count("evaluations")
                     acc.count("crafted_cases")
                     acc.count("ed_%s" % ("accept" if v[2] == "accept" else "reject" if v[2] == "ValueError" else "other"))
